@@ -28,7 +28,7 @@ CLAIMS = {
  "C15": dict(
    note=COMMON_NOTE + "Model: coq/Model/HttpParse.v with checked reads of the caller's buffer. C++ side runs under ASan/UBSan on exactly-sized heap blocks. Totality, in-bounds, termination and the find_request_len specification are proved for every byte string and length; the round-trip clause is the theorem C15_round_trip (coq/Proofs/HttpRoundTrip.v): a request written field by field (method/target without blanks, version and header values without CR, header names without CR and colon) is parsed back into exactly those fields. tolower is modelled as the ASCII table (glibc C locale).",
    tech="Coq proof (no checked read ever fails, fuel never runs out, first-match specification) + three-way agreement of model, implementation under ASan, and an independent oracle on 4600+ inputs per run",
-   text="Theorems in coq/Properties/Properties_C15.v for every byte string and every length: parse_request returns a request or the parse failure, never reads outside [0,len) and never exhausts its fuel; find_request_len is total, in bounds and returns the offset just past the first CRLFCRLF or -1; trim is total and in bounds on any string. Round trip: partial (see level_note)."),
+   text="Theorems in coq/Properties/Properties_C15.v for every byte string and every length: parse_request returns a request or the parse failure, never reads outside [0,len) and never exhausts its fuel; find_request_len is total, in bounds and returns the offset just past the first CRLFCRLF or -1; trim is total and in bounds on any string. Round trip: a request written field by field is parsed back into exactly those fields (theorem C15_round_trip, under the character classes named in level_note)."),
  "C19": dict(
    note=COMMON_NOTE + "Model: coq/Model/Pcap.v (codec) and tcp_send_packet / udp_send_to of coq/Model/Sim.v (what is handed to the capture). The codec (valid pcap, lengths, addresses, ports, payload, time stamps) is proved to round-trip for every list of IPv4 sends and checked byte-for-byte against aux::pcap plus an independent python parser; that every TCP transmission (first or repeated) appends exactly one record with the send time, true endpoints, payload and seq = payload bytes previously transmitted in that direction mod 2^32, starting at zero, is proved of the model's tcp_send_packet (coq/Proofs/CaptureProofs.v) and checked end to end by the second pass of the check (lossy TCP scenarios with the capture on, byte equality of the capture files). The UDP record (seq 0, one per datagram put on the wire) is covered by the correspondence only.",
    tech="Coq proof (decode . encode = id for all well-formed send lists) + byte equality of the file with the model's encoding + independent parser on the implementation's file",
